@@ -35,9 +35,9 @@ COMPONENTS = {
 # which oracles decide which property
 OWNS = {
     "C02": {"L2", "L2E"},   # (family units in the C02 workload contribute schedules; their model findings belong to C10)
-    "C03": {"M1", "M2", "M3", "M4", "M4D", "M4F", "M4L", "M5", "M5U", "F1M", "F6"},
+    "C03": {"M1", "M2", "M3", "M4", "M4D", "M4F", "M4L", "M5", "M5U", "F1M", "F6", "F8"},
     "C04": {"P7", "P5"},
-    "C10": {"P1", "P2", "P2Z", "P3", "P4", "P5", "P6", "P8", "F1", "F2", "F5", "SD"},
+    "C10": {"P1", "P2", "P2Z", "P3", "P4", "P5", "P6", "P8", "F1", "F2", "F5", "F8", "SD"},
     "C12": {"L4"},
     "C17": {"L2E", "P8", "F3", "F4", "F1E", "P2E"},
     "C20": {"L4", "L4V"},
